@@ -23,8 +23,23 @@ POSITIONS = [
     ('call_arg', "print(len([{T}]))"),
     ('walrus', "if (taint_walrus := {T}):\n    pass"),
     ('return', "def taint_return():\n    return {T}"),
+    # the trigger name is also a class attribute somewhere outside: methods still see the builtin (class scopes are skipped)
+    ('nested_class_attr_shadow', "class TaintOuter:\n    {T} = 'an outer class attribute of the same name'\n    class TaintInner:\n        def method(self, argument_value):\n            local_value = argument_value\n            return {C}"),
+    ('nested_class_attr_shadow3', "class TaintOuter3:\n    {T} = 1\n    class TaintMiddle:\n        {T} = 2\n        class TaintInner:\n            def method(self, argument_value):\n                local_value = argument_value\n                return local_value, {T}"),
+    ('class_attr_shadow', "class TaintShadow:\n    {T} = None\n    def method(self, argument_value):\n        local_value = argument_value\n        return {C}"),
+    ('except_handler', "try:\n    pass\nexcept Exception:\n    taint_in_handler = [{T} for _ in range(1)]"),
+    ('genexpr_call_arg_in_function', "def taint_sum(rows_value):\n    return sum(len(str({C})) for row_value in rows_value)"),
+    ('lambda_call_arg_in_function', "def taint_sorted(rows_value):\n    return sorted(rows_value, key=lambda item_value: (item_value, {T}))"),
+    ('lambda_default', "taint_key = sorted([1], key=lambda item_value, other_value={T}: item_value)"),
+    ('handler_in_function', "def taint_handler(rows_value):\n    try:\n        return rows_value[0]\n    except IndexError as error_value:\n        return [({T}, error_value, row_value) for row_value in rows_value]"),
+    ('decorator_in_function', "def taint_factory(first_value):\n    @(lambda function_value: function_value)\n    def inner_function(second_value=[{T} for item_value in range(1)]):\n        return second_value\n    return inner_function"),
+    ('async_function', "async def taint_async(argument_value):\n    local_value = argument_value\n    return local_value, {T}"),
+    ('conditional_expression', "taint_cond = {T} if taint_cond_flag else None" if False else "taint_cond = None if [] else {T}"),
+    ('subscript_index', "taint_table = {{{T}: 1}}[{T}]"),
+    ('del_then_use', "def taint_deleter(argument_value):\n    local_value = argument_value\n    del local_value\n    return {T}"),
 ]
-STAR = [('star_import', 'from os.path import *'), ('star_import_in_try', 'try:\n    from os.path import *\nexcept ImportError:\n    pass')]
+STAR = [('relative_star', 'from . import *'), ('relative_star_up', 'from .. import *'), ('relative_sibling_star', 'from .sibling import *'),
+        ('star_after_plain', 'import os.path\nfrom os.path import join, split\nfrom os.path import *'), ('star_import', 'from os.path import *'), ('star_import_in_try', 'try:\n    from os.path import *\nexcept ImportError:\n    pass')]
 
 BASE_PROGRAMS = [
     "def compute(argument_value, other_value=2):\n    intermediate_value = argument_value * other_value\n    text_value = 'a repeated literal value'\n    return intermediate_value, text_value, 'a repeated literal value', 'a repeated literal value'\nmodule_level_name = compute(3)\nprint(module_level_name, len('a repeated literal value'), len([1]), len([2]), len([3]))\ndef thrower():\n    raise ValueError()\n",
